@@ -21,6 +21,12 @@ ASSUMPTIONS = [
     "the in-place restorer is validated against truly fresh interpreters (3 hash seeds) in every run",
 ]
 MENU = HC.CONFIG_OPS
+# fixed-history scope "rejection-grid": every kind of illegal table (illegal value kinds x key kinds x entry first / last,
+# malformed key spellings) applied in four base states; indices into MENU_X, never transitions of the BFS
+MENU_X = MENU + HC.REJECTION_GRID
+_NAMES = [op.name for op in MENU]
+GRID_PREFIXES = [(), ("set(%s)" % HC.json.dumps(HC.T1, sort_keys=True),), ("set(\"octet_rule\")",),
+                 ("set(%s)" % HC.json.dumps(HC.T2, sort_keys=True), "alphabet")]
 
 
 def worker_init():
@@ -29,15 +35,19 @@ def worker_init():
 
 def plan(tier, seed):
     depth = 5 if tier == "thorough" else 4
-    return {"scopes": [{"name": "level-%d" % d, "depth": d} for d in range(0, depth + 1)],
+    return {"scopes": [{"name": "level-%d" % d, "depth": d} for d in range(0, depth + 1)] + [
+                {"name": "rejection-grid", "illegal_tables": [op.name for op in HC.REJECTION_GRID],
+                 "base_histories": [list(p) for p in GRID_PREFIXES]}],
             "tasks": [], "bounds": {"depth": depth, "menu": [op.name for op in MENU]}, "depth": depth}
 
 
-run = HC.make_run(MENU, use_probes=True, prop="C12")   # "all translation behaviour exactly as before"
+run = HC.make_run(MENU_X, use_probes=True, prop="C12")   # "all translation behaviour exactly as before"
 
 
 def explore(submit, plan, total, tier, seed):
-    HC.explore(MENU, submit, total, plan["depth"])
+    HC.explore(MENU_X, submit, total, plan["depth"], n_ops=len(MENU))
+    hists = [tuple(_NAMES.index(n) for n in p) + (len(MENU) + k,) for p in GRID_PREFIXES for k in range(len(HC.REJECTION_GRID))]
+    submit([("rejection-grid", (hists[k::32],)) for k in range(32)])
 
 
 def finish(total, tier, seed):
@@ -46,8 +56,8 @@ def finish(total, tier, seed):
 
 def replay(case):
     worker_init()
-    names = [op.name for op in MENU]
+    names = [op.name for op in MENU_X]
     hist = tuple(names.index(n) for n in case["history"])
     r = Result()
-    HC.check_state(MENU, hist, r, True, "C12")
+    HC.check_state(MENU_X, hist, r, True, "C12")
     return [(sig, v[0]["detail"]) for sig, v in r.viol.items()]
